@@ -26,6 +26,13 @@ Theorem C19_reported_pair_is_a_race :
 Proof. exact race_check_reports_a_race. Qed.
 Print Assumptions C19_reported_pair_is_a_race.
 
+(* ... and it is the first one: no race of the execution ends at an earlier event. *)
+Theorem C19_reported_pair_is_the_first_race :
+  forall tr i j, race_check tr = Some (i, j) ->
+    forall i' j', (j' < N.to_nat j)%nat -> ~ is_race tr i' j'.
+Proof. exact race_check_reports_the_first_race. Qed.
+Print Assumptions C19_reported_pair_is_the_first_race.
+
 (* Lock discipline: in every trace of lock operations and accesses that the discipline admits,
    two conflicting accesses by different threads are separated by a release of the lock by the
    first thread and a later acquisition by the second, one of them exclusive — a pair the Go
